@@ -648,7 +648,7 @@ def gen_record_like(rng):
   import objtypes
   k = rng.randrange(12)
   t = rng.choice(['T', 'T', 'T', 'Other', '_grist_Attachments'])
-  rows = rng.choice([[], [1, 2], [3], [2, 2, 5], [0], [7, 1, 2 ** 31]])
+  rows = rng.choice([[], [1, 2], [3], [2, 2, 5], [0], [7, 1, 2 ** 31 - 1]])
   if k == 0:
     return record(t, rng.choice([0, 1, 5, 17, 2 ** 31, -1]))
   if k == 1:
